@@ -333,6 +333,7 @@ def run_symbolic(cdef):
     names_seen = {}
     while pending:
         sched = pending.pop()
+        sym.reset_caches()
         run = sym.Run(sched)
         sym.CUR = run
         c = SymCtx(run, cdef)
